@@ -153,15 +153,14 @@ func (q *Query) Clone() (*Query, error) {
 	influxql.WalkFunc(n.stmt.Dimensions, func(qlNode influxql.Node) {
 		if cn, ok := qlNode.(*influxql.Call); ok {
 			if cn.Name == "time" {
+				// Point at the literals of the cloned statement itself, as
+				// Dimensions does, so that SetStartTime on the clone realigns
+				// the GROUP BY time offset that String() prints.
 				if dln, ok := cn.Args[0].(*influxql.DurationLiteral); ok {
-					n.groupByTimeDL = &influxql.DurationLiteral{
-						Val: dln.Val,
-					}
+					n.groupByTimeDL = dln
 				}
 				if don, ok := cn.Args[1].(*influxql.DurationLiteral); ok {
-					n.groupByOffsetDL = &influxql.DurationLiteral{
-						Val: don.Val,
-					}
+					n.groupByOffsetDL = don
 				}
 			}
 		}
